@@ -638,11 +638,11 @@ structure AddEffect (s s' : State V) (x : Id) (v : V) (e : Option Err) : Prop wh
     (∀ j, s'.nodes.contains j = true → j = x ∨ s.nodes.contains j = true)
 
 theorem add_inv (s s' : State V) (x : Id) (v : V) (level : Nat) (pick : Id) (e : Option Err)
-    (hinv : Inv s) (hfresh : s.nodes.contains x = false)
+    (hinv : Inv s) (hfresh : s.nodes.contains x = false) (hkey : x = 0 → s.nextID = 0)
     (hpick : s.deleted.contains s.entry = true → pick ∈ flushChoices s)
     (hsmall : s'.nodes.count ≤ 2 * s.M + 1) (hef : s'.nodes.count ≤ s.efC)
     (h : add m s x v level pick = .ok (s', e)) :
-    Inv s' ∧ AddEffect m s s' x v e := by
+    Inv s' ∧ AddEffect m s s' x v e ∧ (x ≠ 0 → s'.nextID = s.nextID) := by
   have hxdel : s.deleted.contains x = false := by
     cases hc : s.deleted.contains x with
     | false => rfl
@@ -652,16 +652,20 @@ theorem add_inv (s s' : State V) (x : Id) (v : V) (level : Nat) (pick : Id) (e :
   · next hdim =>
     simp only [Except.ok.injEq, Prod.mk.injEq] at h
     obtain ⟨rfl, rfl⟩ := h
-    exact ⟨hinv, rfl, rfl, rfl, rfl, fun _ => ⟨rfl, Or.inl hdim⟩, fun hh => by cases hh⟩
+    exact ⟨hinv, ⟨rfl, rfl, rfl, rfl, fun _ => ⟨rfl, Or.inl hdim⟩, fun hh => by cases hh⟩, fun _ => rfl⟩
   · next hdim =>
     have hdim' : m.dimOf v = s.dim := by simpa using hdim
     split at h
     · next hpre =>
       simp only [Except.ok.injEq, Prod.mk.injEq] at h
       obtain ⟨rfl, rfl⟩ := h
-      exact ⟨hinv, rfl, rfl, rfl, rfl, fun _ => ⟨rfl, Or.inr hpre⟩, fun hh => by cases hh⟩
+      exact ⟨hinv, ⟨rfl, rfl, rfl, rfl, fun _ => ⟨rfl, Or.inr hpre⟩, fun hh => by cases hh⟩, fun _ => rfl⟩
     · next v' hpre =>
       -- the state after the purge (if any)
+      have hnid : (if s.deleted.contains s.entry = true then flushTo s pick else s).nextID = s.nextID := by
+        split
+        · rw [flushTo_eq]; split <;> rfl
+        · rfl
       generalize hsf : (if s.deleted.contains s.entry = true then flushTo s pick else s) = sf at h
       have hF : Inv sf ∧ sf.dim = s.dim ∧ sf.M = s.M ∧ sf.efC = s.efC ∧ sf.efS = s.efS ∧
           (∀ j, Live sf j ↔ Live s j) ∧
@@ -685,6 +689,12 @@ theorem add_inv (s s' : State V) (x : Id) (v : V) (level : Nat) (pick : Id) (e :
         cases hc : sf.nodes.contains x with
         | false => rfl
         | true => have := hFsub x hc; rw [hfresh] at this; cases this
+      rw [hsf] at hnid
+      have hk : (if (x == 0) = true then sf.nextID else x) = x := by
+        by_cases hx : x = 0
+        · simp [hx, hnid, hkey hx]
+        · simp [hx]
+      simp only [hk, bne_self_eq_false, Bool.false_eq_true, if_false] at h
       split at h
       · cases h
       · next s2 hlink =>
@@ -692,14 +702,18 @@ theorem add_inv (s s' : State V) (x : Id) (v : V) (level : Nat) (pick : Id) (e :
         obtain ⟨rfl, rfl⟩ := h
         obtain ⟨hinv2, heff⟩ := addLinked_inv m sf s2 x v' level hinvF hfreshF hFent
           (by rw [hFM]; exact hsmall) (by rw [hFC]; exact hef) hlink
+        have hinv2 : Inv ({ s2 with nextID := if (x == 0) = true then sf.nextID + 1 else sf.nextID } : State V) :=
+          ⟨hinv2.resolves, hinv2.del_res, hinv2.entry_res, hinv2.ml, hinv2.empty_entry, hinv2.l0,
+            hinv2.comp, hinv2.entry_comp⟩
         have hxdelF : isDeleted sf x = false := by
           cases hd : isDeleted sf x with
           | false => rfl
           | true => have := hinvF.del_res x hd; rw [hfreshF] at this; cases this
         have hdel2 : ∀ j, isDeleted s2 j = isDeleted sf j := by intro j; simp [isDeleted, heff.deleted]
-        refine ⟨hinv2, heff.dim.trans hFd, heff.M.trans hFM, heff.efC.trans hFC, heff.efS.trans hFS,
-          fun hh => absurd rfl hh, fun _ => ⟨v', hdim', hpre, ?_, ?_, heff.new, ?_⟩⟩
+        refine ⟨hinv2, ⟨heff.dim.trans hFd, heff.M.trans hFM, heff.efC.trans hFC, heff.efS.trans hFS,
+          fun hh => absurd rfl hh, fun _ => ⟨v', hdim', hpre, ?_, ?_, heff.new, ?_⟩⟩, ?_⟩
         · intro j
+          show Live s2 j ↔ (j = x ∨ Live s j)
           simp only [Live, heff.contains, hdel2, Bool.or_eq_true, decide_eq_true_eq]
           constructor
           · rintro ⟨hc | hc, hd⟩
@@ -719,6 +733,9 @@ theorem add_inv (s s' : State V) (x : Id) (v : V) (level : Nat) (pick : Id) (e :
           rcases hj with hj | hj
           · exact Or.inl hj.symm
           · exact Or.inr (hFsub j hj)
+        · intro hx
+          have : (x == 0) = false := by simpa using hx
+          simp [this, hnid]
 
 end
 end Comet.HNSW
